@@ -32,12 +32,17 @@ TUnion == [name |-> "union", kinds |-> <<"pass", "union", "sync">>,
 TLoop == [name |-> "loop", kinds |-> <<"pass", "loop">>, edges |-> <<Src, Ed(1, 2)>>,
           outf |-> <<"all", "all">>]
 
+\* from -> UDF -> log
+TUdf == [name |-> "udf", kinds |-> <<"pass", "udf", "sync">>, edges |-> <<Src, Ed(1, 2), Ed(2, 3)>>,
+         outf |-> <<"all", "all", "all">>]
+
 MCTopos == {TInflux, TChain, TAlert, TAlertMid, TSync, TFork, TUnion}
 MCToposSmall == {TInflux, TAlert, TSync, TUnion}
 MCInfluxOnly == {TInflux, TChain, TFork}
 MCUnionOnly == {TUnion}
 MCAlertOnly == {TAlert, TAlertMid}
 MCLoopOnly == {TLoop}
+MCUdfOnly == {TUdf}
 BothKinds == {"task", "close"}
 TaskOnly == {"task"}
 =============================================================================
